@@ -70,8 +70,10 @@ def digest(df):
     return hashlib.sha1('\n'.join(rows).encode()).hexdigest()[:16]
 
 
-def rows_of(df):
-    return model.multiset(model.canon_rows(df))
+def rows_of(df, with_id=False):
+    # (the _id of a join / filter_tables result is a running number, checked separately; the id a
+    #  candidate row carries through filter_candset / apply_matcher belongs to the row)
+    return model.multiset(model.canon_rows(df, drop=() if with_id else ('_id',)))
 
 
 def required_keys(call):
@@ -129,6 +131,16 @@ def sweep_case(case, rec, ssj, trace=None):
     entry = case['entry']
     call = make_entry_call(rng, entry)
     tag = '%s ' % entry
+    if call['api'] == 'apply_matcher' and rng.random() < 0.3:
+        # a hand-made candidate set: the pair-id column is not called _id
+        cs = dict(call['candset'])
+        cs['cols'] = ['pair_id' if c == '_id' else c for c in cs['cols']]
+        cs['data'] = dict(cs['data'])
+        cs['data']['pair_id'] = cs['data'].pop('_id')
+        cs['dtypes'] = dict(cs.get('dtypes', {}))
+        if '_id' in cs['dtypes']:
+            cs['dtypes']['pair_id'] = cs['dtypes'].pop('_id')
+        call['candset'] = cs
     if case.get('sim') and call['api'] == 'apply_matcher' and call.get('tok') is not None:
         call['sim'] = case['sim']
         call['comp_op'], call['threshold'], call['out_sim_score'] = '>=', 0.3, True
@@ -139,7 +151,8 @@ def sweep_case(case, rec, ssj, trace=None):
         rec.add('raised', '%s %s: %s' % (entry, type(e).__name__, str(e)[:80]))
         return {'rows': 0}
     oracle.check_ids(base, rec, case=case, tag=tag) if call['api'] not in ('filter_candset', 'apply_matcher') else None
-    base_rows = rows_of(base)
+    carries_id = call['api'] in ('filter_candset', 'apply_matcher')
+    base_rows = rows_of(base, carries_id)
     R = n_units(call)
     sweep = case.get('n_jobs_list') or (list(range(2, R + 4)) + [-1, -2, -100, 64])
     req = None
@@ -175,7 +188,7 @@ def sweep_case(case, rec, ssj, trace=None):
                                   'model requires' % (nj, sorted(lost, key=repr)[:3]), case=dict(case, n_jobs=nj))
                 rec.count('required_pairs_checked', len(req))
             continue
-        got = rows_of(df)
+        got = rows_of(df, carries_id)
         if got != base_rows:
             extra = list((got - base_rows).elements())[:2]
             lost = list((base_rows - got).elements())[:2]
